@@ -360,16 +360,16 @@ def centres(ctx, R="R-C05-centres"):
         c = fc.bank(prog, name)
         f = prog.own_method(c, "centers_hz")
         r = astq.returns_of(f)
-        ctx.check(len(r) == 1 and astq.text(r[0].value) == "self._vertices[1:-1]", R, f, r[0] if r else MISSING(f.node), "%s.centers_hz are the interior vertices" % name)
+        ctx.check(len(r) == 1 and astq.text(r[0].value) == "self._vertices[1:-1]", R, f, r[0] if r else MISSING(f.node), "%s.centers_hz are the interior vertices" % name, structural=True)
         g = prog.own_method(c, "supports_hz")
         txt = astq.text(astq.returns_of(g)[0].value).replace(" ", "")
-        ctx.check("zip(self._vertices[:-2],self._vertices[2:])" in txt, R, g, g.node, "%s.supports_hz[i] spans vertices i and i+2 (so centre i lies inside)" % name)
+        ctx.check("zip(self._vertices[:-2],self._vertices[2:])" in txt, R, g, g.node, "%s.supports_hz[i] spans vertices i and i+2 (so centre i lies inside)" % name, structural=True)
         nf = prog.own_method(c, "num_filts")
-        ctx.check(astq.eq_text(astq.returns_of(nf)[0].value, "len(self._vertices)-2"), R, nf, nf.node, "%s.num_filts = number of vertices - 2" % name)
+        ctx.check(astq.eq_text(astq.returns_of(nf)[0].value, "len(self._vertices)-2"), R, nf, nf.node, "%s.num_filts = number of vertices - 2" % name, structural=True)
     for name in fc.EDGE_BANKS:
         c = fc.bank(prog, name)
         f = prog.own_method(c, "centers_hz")
-        ctx.check(astq.text(astq.returns_of(f)[0].value) == "self._centers_hz", R, f, f.node, "%s.centers_hz returns the stored centres" % name)
+        ctx.check(astq.text(astq.returns_of(f)[0].value) == "self._centers_hz", R, f, f.node, "%s.centers_hz returns the stored centres" % name, structural=True)
 
 
 def purity(ctx, R="R-C05-pure"):
